@@ -1314,8 +1314,14 @@ pub struct JsonString<'a> {
 
 impl<'a> JsonString<'a> {
     /// Get the raw bytes including quotes.
+    ///
+    /// For a string with no closing quote (malformed input reached through
+    /// the non-validating index) this is the unterminated remainder of the
+    /// text, the same span [`raw_and_escaped`](Self::raw_and_escaped) yields.
     pub fn raw_bytes(&self) -> &'a [u8] {
-        let end = self.find_end();
+        // `find_end` is one past the closing quote; with no closing quote it
+        // is `text.len() + 1`, which must not be used as a slice bound.
+        let end = self.find_end().min(self.text.len());
         &self.text[self.start..end]
     }
 
